@@ -1,4 +1,5 @@
 import TapkeeVerif.Gen.OmpRegions
+import TapkeeVerif.Gen.OmpRegionProofs
 import TapkeeVerif.Proofs.OmpTactic
 import TapkeeVerif.Proofs.OmpRegion
 import Mathlib.Data.Set.Basic
@@ -117,86 +118,68 @@ example : demoRegion.RaceFree ∧
   · intro k l hw
     cases hw with
     | here =>
-      exact ⟨_, List.mem_cons_self .., rfl, rfl, rfl, fun _ => 0, rfl, by simp [demoRegion], by simp⟩
+      exact ⟨_, List.mem_cons_self .., rfl, rfl, rfl, rfl, fun _ => 0, rfl, by simp [demoRegion], by simp⟩
     | write_k h => cases h
   · intro k l hr
     cases hr with
     | write_k h => cases h
 
-/-! ### per region, over the generated table -/
+/-! ### per region, over the generated table
 
-/-- the table covers exactly these regions (a new `#pragma omp parallel` in the source needs a theorem here) -/
-theorem regions_covered : regionNames =
-    ["compute_diffusion_matrix", "compute_distance_matrix_1", "compute_distance_matrix_2",
-     "compute_shortest_distances_matrix_1", "compute_shortest_distances_matrix_2",
-     "compute_shortest_distances_matrix_1_fib", "compute_shortest_distances_matrix_2_fib",
-     "hessian_weight_matrix", "linear_weight_matrix", "matrix_from_callback", "tangent_weight_matrix",
-     "triangulate"] := by decide
+`Gen/OmpRegionProofs.lean` (regenerated together with the table) states `disjoint_<region> : <region>.RaceFree` for
+EVERY region of the table and closes each with the one generic tactic `race_free` (enumerate the pairs of table rows,
+unfold the index functions, `omega`): a region whose accesses are not disjoint breaks the build of this module, a new
+or renamed parallel function needs no hand-written statement.  The theorems below name the regions of the current
+tree by the function they live in. -/
+
+open TapkeeVerif.Gen.OmpRegionProofs
+
+/-- every region of the table is race free: no two different iterations touch the same shared location, one of them
+    writing, unless both accesses are inside `critical` (or both are `atomic`) -/
+theorem all_regions_race_free : ∀ r ∈ allRegions, r.RaceFree := all_race_free
+
+/-- the table is not trivially race free: every region has a write to a shared variable, there are regions, and the
+    list of names is the list of regions -/
+theorem regions_covered :
+    (∀ r ∈ allRegions, r.hasWrite = true) ∧ allRegions ≠ [] ∧ regionNames = allRegions.map (·.name) := by decide
 
 /-- Gaussian kernel matrix: iteration `i` writes `{(i,j),(j,i) | j ≥ i}`; `(i,j) = (j',i')`, `j' ≥ i' ≠ i` is contradictory -/
-theorem disjoint_compute_diffusion_matrix : compute_diffusion_matrix.RaceFree := by
-  race_free compute_diffusion_matrix
-/-- landmark distance matrix: the same symmetric pair pattern -/
-theorem disjoint_compute_distance_matrix_1 : compute_distance_matrix_1.RaceFree := by
-  race_free compute_distance_matrix_1
-/-- distance matrix: the same symmetric pair pattern -/
-theorem disjoint_compute_distance_matrix_2 : compute_distance_matrix_2.RaceFree := by
-  race_free compute_distance_matrix_2
-/-- Isomap geodesics (priority-queue build): iteration `k` writes and reads row `k` only; heap, `s`, `f` are private -/
-theorem disjoint_compute_shortest_distances_matrix_1 : compute_shortest_distances_matrix_1.RaceFree := by
-  race_free compute_shortest_distances_matrix_1
-/-- landmark Isomap geodesics (priority-queue build): row `k` only -/
-theorem disjoint_compute_shortest_distances_matrix_2 : compute_shortest_distances_matrix_2.RaceFree := by
-  race_free compute_shortest_distances_matrix_2
-/-- the same two regions in the `TAPKEE_USE_FIBONACCI_HEAP` build -/
-theorem disjoint_compute_shortest_distances_matrix_1_fib : compute_shortest_distances_matrix_1_fib.RaceFree := by
-  race_free compute_shortest_distances_matrix_1_fib
-theorem disjoint_compute_shortest_distances_matrix_2_fib : compute_shortest_distances_matrix_2_fib.RaceFree := by
-  race_free compute_shortest_distances_matrix_2_fib
+theorem disjoint_compute_diffusion_matrix :
+    ∀ r ∈ allRegions, r.func = "compute_diffusion_matrix" → r.RaceFree := fun r hr _ => all_race_free r hr
+/-- distance matrices (all samples / landmarks): the same symmetric pair pattern -/
+theorem disjoint_compute_distance_matrix :
+    ∀ r ∈ allRegions, r.func = "compute_distance_matrix" → r.RaceFree := fun r hr _ => all_race_free r hr
+/-- Isomap and landmark Isomap geodesics, priority-queue and Fibonacci-heap builds: iteration `k` writes and reads row
+    `k` only; heap, `s`, `f` are private -/
+theorem disjoint_compute_shortest_distances_matrix :
+    ∀ r ∈ allRegions, r.func = "compute_shortest_distances_matrix" → r.RaceFree := fun r hr _ => all_race_free r hr
 /-- weight matrices: the only shared access is the append under `critical` -/
-theorem disjoint_hessian_weight_matrix : hessian_weight_matrix.RaceFree := by
-  race_free hessian_weight_matrix
-theorem disjoint_linear_weight_matrix : linear_weight_matrix.RaceFree := by
-  race_free linear_weight_matrix
-theorem disjoint_tangent_weight_matrix : tangent_weight_matrix.RaceFree := by
-  race_free tangent_weight_matrix
+theorem disjoint_weight_matrices :
+    ∀ r ∈ allRegions, r.func ∈ ["linear_weight_matrix", "tangent_weight_matrix", "hessian_weight_matrix"] → r.RaceFree :=
+  fun r hr _ => all_race_free r hr
 /-- CLI `matrix_from_callback`: symmetric pair pattern; `j` is `private(j)`, `i` the loop variable -/
-theorem disjoint_matrix_from_callback : matrix_from_callback.RaceFree := by
-  race_free matrix_from_callback
+theorem disjoint_matrix_from_callback :
+    ∀ r ∈ allRegions, r.func = "matrix_from_callback" → r.RaceFree := fun r hr _ => all_race_free r hr
 /-- landmark triangulation: iteration `index_iter` writes row `index_iter` only -/
-theorem disjoint_triangulate : triangulate.RaceFree := by
-  race_free triangulate
+theorem disjoint_triangulate :
+    ∀ r ∈ allRegions, r.func = "triangulate" → r.RaceFree := fun r hr _ => all_race_free r hr
 
-/-- every region of the table is race free -/
-theorem all_regions_race_free : ∀ r ∈ allRegions, r.RaceFree := by
-  intro r hr
-  simp only [allRegions, List.mem_cons, List.mem_nil_iff, or_false] at hr
-  rcases hr with rfl | rfl | rfl | rfl | rfl | rfl | rfl | rfl | rfl | rfl | rfl | rfl
-  · exact disjoint_compute_diffusion_matrix
-  · exact disjoint_compute_distance_matrix_1
-  · exact disjoint_compute_distance_matrix_2
-  · exact disjoint_compute_shortest_distances_matrix_1
-  · exact disjoint_compute_shortest_distances_matrix_2
-  · exact disjoint_compute_shortest_distances_matrix_1_fib
-  · exact disjoint_compute_shortest_distances_matrix_2_fib
-  · exact disjoint_hessian_weight_matrix
-  · exact disjoint_linear_weight_matrix
-  · exact disjoint_matrix_from_callback
-  · exact disjoint_tangent_weight_matrix
-  · exact disjoint_triangulate
+/-- the per-function statements above are not vacuous on the current tree: each of these functions has a region -/
+theorem known_regions_present :
+    ∀ f ∈ ["compute_diffusion_matrix", "compute_distance_matrix", "compute_shortest_distances_matrix",
+           "linear_weight_matrix", "tangent_weight_matrix", "hessian_weight_matrix", "matrix_from_callback", "triangulate"],
+      (allRegions.any fun r => r.func == f) = true := by decide
 
 /-- distance / geodesic / diffusion / triangulation / CLI regions have no critical section at all: by
     `region_deterministic` their result is schedule independent bit for bit -/
 theorem exact_regions_no_critical :
-    ∀ r ∈ [compute_diffusion_matrix, compute_distance_matrix_1, compute_distance_matrix_2,
-           compute_shortest_distances_matrix_1, compute_shortest_distances_matrix_2,
-           compute_shortest_distances_matrix_1_fib, compute_shortest_distances_matrix_2_fib,
-           matrix_from_callback, triangulate], r.noCritical = true := by decide
+    ∀ r ∈ allRegions, r.func ∈ ["compute_diffusion_matrix", "compute_distance_matrix",
+      "compute_shortest_distances_matrix", "matrix_from_callback", "triangulate"] → r.noCritical = true := by decide
 
 /-- in the three weight-matrix regions everything shared happens under `critical` and is an append to one container:
     the triplet list is schedule independent up to permutation, hence (`triplet_sum_perm_invariant`) so is the matrix -/
 theorem weight_regions_critical_append_only :
-    ∀ r ∈ [hessian_weight_matrix, linear_weight_matrix, tangent_weight_matrix],
+    ∀ r ∈ allRegions, r.func ∈ ["linear_weight_matrix", "tangent_weight_matrix", "hessian_weight_matrix"] →
       r.criticalAppendOnly = true ∧ r.arrays = ["sparse_triplets"] ∧ r.accesses.all (·.critical) = true := by decide
 
 end TapkeeVerif.Omp
